@@ -118,6 +118,15 @@ func (x *Exec) callContract(call *ast.CallExpr, c *Contract, fn *types.Func, rec
 		o.ClauseText = r.Text
 		st.assume(g)
 	}
+	// the callee may panic under its panics_if conditions: reaching that is an obligation of the caller
+	for _, pc := range c.PanicsIf {
+		env := x.calleeEnv(c, st, nil, recv, args, nil)
+		cond := x.specBool(env, pc)
+		ps := st.clone()
+		ps.assume(cond)
+		x.tryPath(func() { x.endPanic(ps, "explicit-panic", "panic inside "+fi.Name+": "+pc.Text, pos) })
+		st.assume(not(cond))
+	}
 	pre := st.clone()
 	// 2. havoc
 	if !c.HasAssign {
@@ -219,6 +228,14 @@ func (x *Exec) havocLocation(env *specEnv, st *State, a *SpecExpr) {
 		x.havocAll(st)
 		return
 	}
+	if a.Kind == "call" && a.Args[0].Kind == "ident" && a.Args[0].Name == "fields" {
+		si := x.structOf(x.resolveType(env.pkg, specTypeText(a.Args[1])))
+		for i := range si.Fields {
+			f := &si.Fields[i]
+			x.havocHeap(st, fieldHeapName(si, f), arraySort(SInt, f.Sort))
+		}
+		return
+	}
 	if a.Kind == "call" && a.Args[0].Kind == "ident" && a.Args[0].Name == "maps" {
 		mt, ok := x.resolveType(env.pkg, specTypeText(a.Args[1])).Underlying().(*types.Map)
 		if !ok {
@@ -303,6 +320,14 @@ func (x *Exec) assignHeaps(c *Contract, a *SpecExpr) (out map[string]Sort, ok bo
 	fi := c.Fn
 	if a.Kind == "ident" && a.Name == "all" {
 		return nil, false
+	}
+	if a.Kind == "call" && a.Args[0].Kind == "ident" && a.Args[0].Name == "fields" {
+		si := x.structOf(x.resolveType(fi.Pkg, specTypeText(a.Args[1])))
+		for i := range si.Fields {
+			f := &si.Fields[i]
+			out[fieldHeapName(si, f)] = arraySort(SInt, f.Sort)
+		}
+		return out, true
 	}
 	if a.Kind == "call" && a.Args[0].Kind == "ident" && a.Args[0].Name == "maps" {
 		mt := x.resolveType(fi.Pkg, specTypeText(a.Args[1])).Underlying().(*types.Map)
@@ -660,21 +685,12 @@ func (x *Exec) checkPost(st *State, fr *frame, pos token.Pos) {
 				parts = mkEnv().fieldwiseParts(e.Expr.Args[1].Name, e.Expr.Args[2], e.Expr.Args[3])
 			}()
 			for _, p := range parts {
-				conj := splitAnd(p.T)
-				for ci, c := range conj {
-					lbl := e.Label + "." + p.Name
-					if len(conj) > 1 {
-						lbl += fmt.Sprintf(".%c", 'a'+ci)
-					}
-					o := x.emit(st, "ensures", lbl, c, e.Props, "postcondition for field "+p.Name+": "+e.Text, pos)
-					o.ClauseText = e.Text
-				}
+				x.emitSplit(st, "ensures", e.Label+"."+p.Name, p.T, e.Props, "postcondition for field "+p.Name+": "+e.Text, pos, e.Text)
 			}
 			continue
 		}
 		g := x.specBool(mkEnv(), e)
-		o := x.emit(st, "ensures", e.Label, g, e.Props, "postcondition: "+e.Text, pos)
-		o.ClauseText = e.Text
+		x.emitSplit(st, "ensures", e.Label, g, e.Props, "postcondition: "+e.Text, pos, e.Text)
 	}
 	for _, e := range c.Returns {
 		env := mkEnv()
@@ -689,22 +705,47 @@ func (x *Exec) checkPost(st *State, fr *frame, pos token.Pos) {
 	}
 	x.checkLocksReleased(st, pos)
 	// vacuity canary: "ensures false" must not be provable on a reachable return
-	if !x.canaryDone {
-		x.canaryDone = true
-		o := x.emit(st, "canary", "", tFalse, c.Props, "an injected 'ensures false' must fail (some return is reachable)", pos)
+	if x.canaryCount < 6 {
+		x.canaryCount++
+		o := x.emit(st, "canary", "", tFalse, c.Props, "an injected 'ensures false' must fail at some return (some return is reachable)", pos)
 		o.MustFail = true
+	}
+}
+
+// emitSplit emits the obligation whole; its conjuncts are kept so that the solver driver can
+// fall back to proving them one by one (and name the conjunct that fails).
+func (x *Exec) emitSplit(st *State, kind, label string, g Term, props []string, desc string, pos token.Pos, text string) {
+	o := x.emit(st, kind, label, g, props, desc, pos)
+	o.ClauseText = text
+	if parts := splitAnd(g); len(parts) > 1 {
+		o.Parts = parts
 	}
 }
 
 // splitAnd splits a top-level conjunction into its conjuncts.
 func splitAnd(t Term) []Term {
+	// (forall (B) (=> H (and A1 .. An)))  ==  (and (forall (B) (=> H A1)) ..)
+	if strings.HasPrefix(t.S, "(forall ") {
+		parts := splitSexpArgs(t.S)
+		if len(parts) == 3 && strings.HasPrefix(parts[2], "(=> ") {
+			imp := splitSexpArgs(parts[2])
+			if len(imp) == 3 && strings.HasPrefix(imp[2], "(and ") {
+				var out []Term
+				for _, c := range splitAnd(Term{imp[2], SBool}) {
+					out = append(out, Term{fmt.Sprintf("(forall %s (=> %s %s))", parts[1], imp[1], c.S), SBool})
+				}
+				return out
+			}
+		}
+		return []Term{t}
+	}
 	if !strings.HasPrefix(t.S, "(and ") {
 		return []Term{t}
 	}
 	parts := splitSexpArgs(t.S)
 	var out []Term
 	for _, p := range parts[1:] {
-		out = append(out, Term{p, SBool})
+		out = append(out, splitAnd(Term{p, SBool})...)
 	}
 	return out
 }
@@ -750,6 +791,13 @@ func (x *Exec) checkFrame(st *State, pos token.Pos) {
 						return
 					}
 				}
+			}
+			if a.Kind == "call" && a.Args[0].Kind == "ident" && a.Args[0].Name == "fields" {
+				si := x.structOf(x.resolveType(envOld.pkg, specTypeText(a.Args[1])))
+				for i := range si.Fields {
+					locs = append(locs, loc{heap: fieldHeapName(si, &si.Fields[i]), whole: true})
+				}
+				return
 			}
 			if a.Kind == "call" && a.Args[0].Kind == "ident" && a.Args[0].Name == "maps" {
 				mt := x.resolveType(envOld.pkg, specTypeText(a.Args[1])).Underlying().(*types.Map)
